@@ -86,11 +86,15 @@ def replay_case(case, tag, rng, tier):
                 bad("C09.structure", why, obs, pose)
                 continue
             exp_faces = [([pose.pt(P) for P in f["cyc"]], fl3(pose.vec(f["n"]))) for f in body["fs"]]
+            pts_cyc = {id(pts): pts for pts, _ in exp_faces}
+            n_out_unposed = {id(pts): n for pts, n in exp_faces}
             for lf in obs["fs"]:
                 for pts, n_out in exp_faces:
                     if match_points(lf["cyc"], pts) is None:
                         if not (dot(lf["n"], n_out) > 0):
                             bad("C09.outward", "a face normal does not point away from the interior", obs, pose)
+                        elif not ccw_about(lf["cyc"], lf["n"], pts_cyc[id(pts)], n_out_unposed[id(pts)], pose.det):
+                            bad("C09.face_cycle", "a face's vertex cycle is not counter-clockwise about its (outward) normal", obs, pose)
                         break
             v, e, f = len(obs["vs"]), obs["ne"], len(obs["fs"])
             if v - e + f != 2:
